@@ -15,6 +15,7 @@ DEFAULT_WEIGHTS = dict(
     connect=6, end=2, quit=1, join=14, part=5, kick=5, topic=4, invite=4, cmode=14, umode=4,
     nick=5, privmsg=10, notice=6, away=2, oper=2, kill=1, wallops=2, stats=1, die=0.3, squit=0.3,
     names=3, who=3, whois=3, list=2, lusers=2, ison=1, userhost=1, whowas=1, chanlist=2, cquery=1,
+    cap=1.5,
 )
 
 ENDINGS = ["close", "rst", "halfclose", "midline", "badutf8"]
@@ -123,6 +124,19 @@ class Gen:
         return ("connect", dict(nick=n, user=USERS.get(n, n), realname="R %s" % n,
                                 password=self.server_password,
                                 multi_prefix=self.r.random() < self.mp_rate))
+
+    def g_cap(self, live):
+        if not live:
+            return None
+        r = self.r
+        sub = r.choice(["LS", "REQ", "REQ", "LIST", "END"])
+        cmd = {"verb": "CAP", "sub": sub}
+        if sub == "REQ":
+            cmd["caps"] = r.choice([["multi-prefix"], ["multi-prefix"], ["bogus-cap"], ["multi-prefix", "bogus"]])
+        if sub == "LS" and r.random() < 0.5:
+            cmd["sub"] = "LS"
+            cmd["line"] = "CAP LS 302"
+        return ("act", r.choice(live), cmd)
 
     def g_end(self, live):
         if len(live) < 2:
